@@ -15,6 +15,8 @@ import VarlinkProofs.Lemmas.GenTyped
 import VarlinkProofs.Lemmas.GenTop2
 import VarlinkProofs.Lemmas.GenTyped2
 import VarlinkProofs.Lemmas.GenDomain
+import Varlink.Extracted.Code
+import Varlink.ExpectedCode
 namespace Varlink.C07
 open Varlink Varlink.Idl Varlink.Gen
 
@@ -268,5 +270,11 @@ theorem gen_wellformed_partial (t : Idl) (f : GoFile) (h : Domain t = true) (hk 
     driver on thousands of descriptions per run (kernel `decide` does not reduce the checker's nested recursion) -/
 example : Domain sample = true ∧ pkgNameUsable sample = true ∧ (genFile sample).isSome = true :=
   ⟨by decide, by decide, rfl⟩
+
+/-- **Tie to the source**: the declarations of /repo that this property's model transliterates
+    (`Extracted.codeNames_C07`) have, in the current working tree, exactly the fingerprints of the code the
+    model was validated against. Any change to them breaks this obligation; the check then searches the
+    correspondence streams for an input on which the changed code violates the property. -/
+theorem modelled_code_unchanged : Varlink.Extracted.code_C07 = Varlink.ExpectedCode.code_C07 := by decide
 
 end Varlink.C07
